@@ -173,9 +173,10 @@ def value_sets(params, rng, w, n, nm, nrand):
     for _ in range(nrand): sets.append(("random", R(), R(), R()))
     return sets
 
-def run(ck, cases, exes, model, timeout=900):
+def run(ck, cases, exes, model, timeout=None):
     """cases: (stream, cfg, shape_name or None, harness_line, model_line)"""
     mdata = "\n".join(c[4] for c in cases) + "\n"
+    if timeout is None: timeout = 900 if ck.tier == "quick" else 20000
     rc, mout, merr = vf.run_io([model, "expr"], mdata, timeout=timeout)
     if rc != 0: raise RuntimeError("model runner failed: " + merr[-500:])
     mlines = mout.rstrip("\n").split("\n")
